@@ -255,6 +255,14 @@ class Ref:
             return self.conj([x for x in g[2:]], env2, st, depth)
         if k == "sq":
             u = self.term(g[1], env)
+            # the first number found going down list heads / first compound fields, without the substitution
+            while u[0] in ("cons", "comp"):
+                if u[0] == "cons":
+                    u = u[1]
+                elif u[2]:
+                    u = u[2][0]
+                else:
+                    break
             if u[0] == "a" and u[1].lstrip("-").isdigit():
                 return self.do_eq(("a", str(int(u[1]) * int(u[1]))), self.term(g[2], env), st)
             return []
